@@ -25,7 +25,11 @@ const cancelTable = "zz_verif_cancel"
 //
 // The triggers exist only for the duration of the call (a connection on which the function is not
 // registered could not compile a write on a table carrying them).
-func (n *Node) ProcessCancelledAt(k int, b aggsync.Block) (err error, fired bool) {
+//
+// outsideTx reports that the k-th row write was not part of any database/sql transaction (no watcher goroutine
+// exists while it executes): there is nothing to cancel mid-transaction at that position, the context is left
+// alone and the block is processed to its end.
+func (n *Node) ProcessCancelledAt(k int, b aggsync.Block) (err error, fired, outsideTx bool) {
 	must := func(q string) {
 		if _, e := n.DB.Exec(q); e != nil {
 			panic(fmt.Sprintf("storekit: %s: %v", q, e))
@@ -35,6 +39,10 @@ func (n *Node) ProcessCancelledAt(k int, b aggsync.Block) (err error, fired bool
 	defer cancel()
 	hook := func() int64 {
 		fired = true
+		if !watcherExists() {
+			outsideTx = true
+			return 0
+		}
 		cancel()
 		waitWatcher(true)
 		return 0
@@ -75,6 +83,7 @@ func (n *Node) ProcessCancelledAt(k int, b aggsync.Block) (err error, fired bool
 			END;`, t, op, op, t, cancelTable, cancelTable, cancelTable))
 		}
 	}
+	waitWatcher(false) // the watcher of an earlier, finished transaction leaves asynchronously
 	err = n.W.ProcessBlock(cctx, b)
 	waitWatcher(false)
 	for _, t := range tables {
@@ -83,7 +92,25 @@ func (n *Node) ProcessCancelledAt(k int, b aggsync.Block) (err error, fired bool
 		}
 	}
 	must(fmt.Sprintf(`DROP TABLE %s`, cancelTable))
-	return err, fired
+	return err, fired, outsideTx
+}
+
+func watcherExists() bool {
+	return strings.Contains(allStacks(), watcherMark)
+}
+
+// the watcher goroutine is the only goroutine database/sql.(*DB).beginDC starts; until it has run for the first time its
+// stack shows the compiler's go-statement wrapper, not awaitDone, so the creation site is what identifies it
+const watcherMark = "created by database/sql.(*DB).beginDC"
+
+// allStacks is the complete goroutine dump (the buffer grows until the dump fits: a truncated dump could hide the watcher).
+func allStacks() string {
+	for size := 1 << 20; ; size *= 2 {
+		buf := make([]byte, size)
+		if n := runtime.Stack(buf, true); n < size {
+			return string(buf[:n])
+		}
+	}
 }
 
 func (n *Node) userTables() []string {
@@ -104,13 +131,12 @@ func (n *Node) userTables() []string {
 // waitWatcher(true) returns when a goroutine running database/sql.(*Tx).awaitDone is parked in
 // sync.(*RWMutex).Lock; waitWatcher(false) returns when no goroutine runs awaitDone any more.
 func waitWatcher(parked bool) {
-	buf := make([]byte, 1<<20)
 	deadline := time.Now().Add(20 * time.Second)
 	for {
-		s := string(buf[:runtime.Stack(buf, true)])
+		s := allStacks()
 		found, isParked := false, false
 		for _, g := range strings.Split(s, "\n\n") {
-			if strings.Contains(g, "database/sql.(*Tx).awaitDone") {
+			if strings.Contains(g, watcherMark) {
 				found = true
 				if strings.Contains(g, "sync.(*RWMutex).Lock") {
 					isParked = true
